@@ -203,6 +203,12 @@ class Interp:
 
     def mutate(self, o: HObj, op, node):
         f = self.stack[-1].func if self.stack else None
+        owner = o.meta.get("data_of") if o.kind == "list" else None
+        if owner is not None and owner in self.heap:
+            # an edit of circuit.data is an edit of the circuit: which gates remain is not modelled
+            c = self.heap[owner]
+            c.term = t_seq(c.term, ("unknown", f"the circuit's instruction list is edited in place (`{op}` on .data) at {pyfacts.where(f, node) if f else '?'}"))
+            self.mutate(c, f".data {op}", node)
         self.effects.append(("mutate", o.oid, o.origin, o.kind, op,
                              pyfacts.where(f, node) if f else "?", pyfacts.norm_stmt(node), f.fq if f else "?"))
 
@@ -892,7 +898,16 @@ class Interp:
                         d = self.alloc("dict", origin=o.origin if o.origin[0] != "fresh" else None, site=f"metadata of circuit #{o.oid}")
                         o.meta["metadata"] = Ref(d.oid)
                     return o.meta["metadata"]
-                if attr in ("data", "qubits", "clbits", "name", "num_clbits", "global_phase"):
+                if attr == "data":
+                    # the circuit's own instruction list: edits made through it change the circuit
+                    d = o.meta.get("data_list")
+                    if d is None:
+                        dl = self.alloc("list", o.origin if o.origin[0] != "fresh" else None, pyfacts.where(fr.func, e))
+                        dl.elem = Sym("instruction", self.sym_of(base))
+                        dl.meta["data_of"] = o.oid
+                        d = o.meta["data_list"] = Ref(dl.oid)
+                    return d
+                if attr in ("qubits", "clbits", "name", "num_clbits", "global_phase"):
                     return Sym("attr", self.sym_of(base), attr)
                 return Bound(base, attr)
             if o.kind == "record":
